@@ -918,11 +918,41 @@ class CaseRunner:
         if key in cache:
             return cache[key]
         info = norm.gen_info[g]
+        lo_ok = hi_ok = False
+        # cheap sound route for roots of polynomials in boxed variables: interval arithmetic on the radicand
+        red = norm.reductions.get(g)
+        if info["node"].op == "root" and red is not None and red[0] == info["node"].args[1] and lo >= 0:
+            base = red[1]
+            vb = {}
+            okv = True
+            for gg in base.gens():
+                gi = norm.gen_info[gg]
+                l2, h2 = ctx.vars.get(gi.get("name"), (None, None)) if gi["kind"] == "var" else (None, None)
+                if l2 is None or h2 is None:
+                    okv = False
+                    break
+                vb[gg] = (_frac(l2), _frac(h2))
+            if okv:
+                blo, bhi = poly_interval(base, vb)
+                qq = red[0]
+                hi_ok = hi**qq >= bhi
+                lo_ok = lo**qq <= max(blo, 0)
+        if lo_ok and hi_ok:
+            cache[key] = True
+            return True
         em = Emitter(norm)
         name = em.ref(info["node"])
-        asserts = self._domain_asserts(em, list(ob.assumptions) + list(getattr(self, "_cur_pc", [])))
-        asserts.append("(or (< %s %s) (> %s %s))" % (name, smtq(lo), name, smtq(hi)))
-        r = self.solve(em.script(asserts), "z3", self.budget.cex_timeout)
+        base_asserts = self._domain_asserts(em, list(ob.assumptions) + list(getattr(self, "_cur_pc", [])))
+        r = None
+        for side_ok, cond in ((lo_ok, "(< %s %s)" % (name, smtq(lo))), (hi_ok, "(> %s %s)" % (name, smtq(hi)))):
+            if side_ok:
+                continue
+            r = self.solve(em.script(base_asserts + [cond]), "z3", self.budget.cex_timeout)
+            if r.status != "unsat":
+                break
+        else:
+            cache[key] = True
+            return True
         ok = r.status == "unsat"
         if not ok:
             self.inconclusive.append({"obligation": ob.name, "reason": "box %s..%s claimed for atom %s is not implied by the domain (%s)" % (float(lo), float(hi), info["name"], r.status)})
